@@ -17,6 +17,7 @@ import hashlib
 import io
 import itertools
 import random
+import re
 
 from .. import world, transforms, common
 from ..common import Violation, HarnessError
@@ -77,7 +78,13 @@ def gen_model(rng, name, depth, lib, top):
         # vector ports x[0..n-1] and scalars
         for v in range(rng.randint(1, 3)):
             base = ['a', 'b', 'c'][v]
+            if rng.random() < 0.15:
+                # a row of a flattened 2-D port, or a scalar with a bracket in its name: only
+                # a trailing [i] is a bit index
+                base = rng.choice(['%s[1]' % base, '%s[0]' % base, '%s[2]_n' % base])
             n = rng.choice([1, 1, 2, 3, 4])
+            if base.endswith(']'):
+                n = max(n, 2)       # (a lone x[1][0] would be a one-bit vector port: not claimed)
             if v == 0 and rng.random() < 0.12:
                 n = rng.choice([10, 11, 12, 13])     # indices with two digits
             if n == 1:
@@ -386,7 +393,8 @@ def run(case, res):
         """per-bit values -> PyRTL port values according to the merge setting"""
         groups = {}
         for n in names:
-            base = n.split('[')[0] if '[' in n else n
+            mm = re.match(r'^(.*)\[(\d+)\]$', n)
+            base = mm.group(1) if mm else n
             groups.setdefault(base, []).append(n)
         out = {}
         for base, ns in groups.items():
